@@ -159,13 +159,191 @@ pub fn whole_connections(rep: &Report) -> u64 {
     n.load(Ordering::Relaxed)
 }
 
+
+/// An authentication service that vouches for another name than the one the client claimed.
+#[derive(Debug)]
+struct Renaming;
+
+fn real_name(claimed: &str) -> &str {
+    match claimed {
+        "Guest_A" => "Blocked_One",
+        "Blocked_One" => "Fine_Player",
+        "Vip_One" => "Guest_B",
+        "Guest_C" => "Vip_One",
+        other => other,
+    }
+}
+
+impl passage_adapters::authentication::AuthenticationAdapter for Renaming {
+    async fn authenticate(&self, _c: &SocketAddr, _s: (&str, u16), _p: passage_adapters::Protocol, user: (&str, &uuid::Uuid), _secret: &[u8], _key: &[u8]) -> passage_adapters::Result<passage_adapters::authentication::Profile> {
+        Ok(passage_adapters::authentication::Profile { id: *user.1, name: real_name(user.0).to_string(), properties: vec![], profile_actions: vec![] })
+    }
+}
+
+/// discovery whose answer changes: the first call finds `a` online and `b` offline, every later call the other way
+/// round; later calls wait at a gate, and the calls listed in `fail` fail once they are let through
+#[derive(Debug)]
+struct Changing {
+    calls: std::sync::atomic::AtomicUsize,
+    gate: Arc<tokio::sync::Semaphore>,
+    fail: Vec<usize>,
+}
+
+impl DiscoveryAdapter for Changing {
+    async fn discover(&self) -> passage_adapters::Result<Vec<Target>> {
+        let n = self.calls.fetch_add(1, Ordering::SeqCst);
+        let t = |id: &str, addr: &str, status: &str| Target { identifier: id.into(), address: addr.parse().unwrap(), meta: [("status".to_string(), status.to_string())].into_iter().collect() };
+        if n == 0 {
+            return Ok(vec![t("a", "10.0.0.1:25565", "online"), t("b", "10.0.0.2:25565", "offline")]);
+        }
+        let p = self.gate.acquire().await.expect("gate");
+        p.forget();
+        if self.fail.contains(&n) {
+            return Err(passage_adapters::Error::FailedFetch { adapter_type: "verif", cause: "the discovery backend fails on purpose".into() });
+        }
+        Ok(vec![t("a", "10.0.0.1:25565", "offline"), t("b", "10.0.0.2:25565", "online")])
+    }
+}
+
+async fn listener_with<D: DiscoveryAdapter + 'static, A: passage_adapters::authentication::AuthenticationAdapter + 'static>(disc: Arc<D>, auth: Arc<A>, filters: Vec<cfg::OptionFilterAdapter>) -> (SocketAddr, tokio_util::sync::CancellationToken, tokio::task::JoinHandle<Result<(), String>>) {
+    let filters = DynFilterAdapters::from_config(filters).await.unwrap_or_else(|e| common::machinery(&format!("from_config(filter): {e}")));
+    let strategy = DynStrategyAdapter::from_config(cfg::StrategyAdapter::Any).await.unwrap_or_else(|e| common::machinery(&format!("from_config(strategy): {e}")));
+    let a = Arc::new(NetAdapters::new());
+    let port = free_port();
+    let addr: SocketAddr = format!("127.0.0.1:{port}").parse().unwrap();
+    let stop = tokio_util::sync::CancellationToken::new();
+    let mut listener = Listener::new(a.clone(), disc, Arc::new(filters), Arc::new(strategy), auth, Arc::new(FixedLocalizationAdapter::default())).with_auth_secret(Some(SECRET.to_vec())).with_connection_timeout(Duration::from_secs(20));
+    let stop2 = stop.clone();
+    let done = tokio::task::spawn_local(async move { listener.listen(addr, stop2).await.map_err(|e| e.to_string()) });
+    for _ in 0..400 {
+        if tokio::net::TcpStream::connect(addr).await.is_ok() {
+            return (addr, stop, done);
+        }
+        tokio::time::sleep(Duration::from_millis(5)).await;
+    }
+    common::machinery("C18: the listener with the built-in filters did not come up")
+}
+
+fn went(out: &LoginOutcome) -> Option<String> {
+    out.packets.iter().find_map(|p| if let Pkt::Transfer { host, .. } = p { Some(host.clone()) } else { None })
+}
+
+/// Whole connections on which the authenticated name differs from the claimed one: the allow and block lists are
+/// about the player who was authenticated (by the service or by a cookie), not about what Login Start says.
+pub fn renamed_connections(rep: &Report) -> u64 {
+    let mut n = 0;
+    run_local(async {
+        let names = |v: &[&str]| Some(v.iter().map(|s| s.to_string()).collect::<Vec<_>>());
+        let filters = vec![
+            cfg::OptionFilterAdapter { hostname: Some("^play\\.".to_string()), filter: cfg::FilterAdapter::PlayerBlock(cfg::PlayerBlockFilter { usernames: names(&["Blocked_One"]), username: None, ids: None }) },
+            cfg::OptionFilterAdapter { hostname: Some("^vip\\.".to_string()), filter: cfg::FilterAdapter::PlayerAllow(cfg::PlayerAllowFilter { usernames: names(&["Vip_One"]), username: None, ids: None }) },
+        ];
+        let (addr, stop, done) = listener_with(Arc::new(TwoTiers), Arc::new(Renaming), filters).await;
+        // (label, host, claimed, cookie for, routed?)
+        let cases: Vec<(&str, &str, &str, Option<&str>, bool)> = vec![
+            ("claims Guest_A, is Blocked_One, public host", "play.example.net", "Guest_A", None, false),
+            ("claims Blocked_One, is Fine_Player, public host", "play.example.net", "Blocked_One", None, true),
+            ("claims Plain, is Plain, public host", "play.example.net", "Plain", None, true),
+            ("claims Vip_One, is Guest_B, vip host", "vip.example.net", "Vip_One", None, false),
+            ("claims Guest_C, is Vip_One, vip host", "vip.example.net", "Guest_C", None, true),
+            ("claims Plain, holds a cookie for Blocked_One, public host", "play.example.net", "Plain", Some("Blocked_One"), false),
+            ("claims Blocked_One, holds a cookie for Plain, public host", "play.example.net", "Blocked_One", Some("Plain"), true),
+            ("claims Plain, holds a cookie for Vip_One, vip host", "vip.example.net", "Plain", Some("Vip_One"), true),
+            ("claims Vip_One, holds a cookie for Plain, vip host", "vip.example.net", "Vip_One", Some("Plain"), false),
+        ];
+        for (label, host, claimed, cookie_for, routed) in cases {
+            n += 1;
+            let replay = json!({"renamed": label});
+            let Ok(mut cl) = McClient::connect(addr, None).await else { continue };
+            let p = LoginParams { intent: if cookie_for.is_some() { 3 } else { 2 }, host: host.into(), name: claimed.into(), auth_cookie: cookie_for.map(auth_cookie), wait: Duration::from_secs(2), ..Default::default() };
+            let mut out = LoginOutcome { packets: vec![], stage: Stage::Connected, error: None };
+            cl.login(&p, Stage::Connected, Stage::Transferred, &mut out).await;
+            let w = went(&out);
+            let admitted = out.packets.iter().find_map(|p| if let Pkt::LoginSuccess { name, .. } = p { Some(name.clone()) } else { None });
+            if w.is_some() != routed {
+                rep.violation(Violation {
+                    key: if routed { "connection:qualified-player-refused".into() } else { "connection:disqualified-player-routed".into() },
+                    text: format!("{label}: admitted as {admitted:?}, transferred to {w:?} (stage {:?}, error {:?}); the lists are about the authenticated player: {}", out.stage, out.error, if routed { "a target qualifies" } else { "no target qualifies" }),
+                    replay,
+                    weight: 4,
+                });
+            }
+        }
+        stop.cancel();
+        let _ = tokio::time::timeout(Duration::from_secs(2), done).await;
+    });
+    n
+}
+
+/// Connections that overlap in the discovery step while the discovered metadata changes: each player is routed on
+/// what discovery answered for that very connection. (An earlier player was sent to `a`, which was online then; by
+/// now only `b` is.) The first of the overlapping connections ends without a result - its client goes away, or its
+/// discovery call fails.
+pub fn overlapping_connections(rep: &Report) -> u64 {
+    let mut n = 0;
+    for (label, earlier, fail) in [("the first one's client goes away", true, false), ("the first one's discovery call fails", true, true), ("the first one's client goes away, nobody was routed before", false, false), ("the first one's discovery call fails, nobody was routed before", false, true)] {
+        n += 1;
+        run_local(async {
+            let gate = Arc::new(tokio::sync::Semaphore::new(0));
+            let first_gated = if earlier { 1 } else { 0 };
+            let disc = Arc::new(Changing { calls: std::sync::atomic::AtomicUsize::new(if earlier { 0 } else { 1 }), gate: gate.clone(), fail: if fail { vec![1] } else { vec![] } });
+            let _ = first_gated;
+            let filters = vec![cfg::OptionFilterAdapter { hostname: None, filter: cfg::FilterAdapter::Meta(cfg::MetaFilter { rules: vec![cfg::FilterRule { key: "status".into(), operation: cfg::FilterOperation::Equals("online".into()) }] }) }];
+            let (addr, stop, done) = listener_with(disc, Arc::new(NetAdapters::new()), filters).await;
+            let replay = json!({"overlapping": label});
+            let params = |name: &str| LoginParams { name: name.into(), host: "any.example.net".into(), wait: Duration::from_secs(2), ..Default::default() };
+            if earlier {
+                let mut c = McClient::connect(addr, None).await.expect("connect");
+                let mut o = LoginOutcome { packets: vec![], stage: Stage::Connected, error: None };
+                c.login(&params("Earlier"), Stage::Connected, Stage::Transferred, &mut o).await;
+                if went(&o).as_deref() != Some("10.0.0.1") {
+                    rep.violation(Violation { key: "connection:qualified-player-refused".into(), text: format!("{label}: the earlier player (only `a` online) was sent to {:?}", went(&o)), replay: replay.clone(), weight: 4 });
+                }
+            }
+            let mut first = McClient::connect(addr, None).await.expect("connect");
+            let mut o1 = LoginOutcome { packets: vec![], stage: Stage::Connected, error: None };
+            first.login(&params("First"), Stage::Connected, Stage::InConfiguration, &mut o1).await;
+            tokio::time::sleep(Duration::from_millis(30)).await;
+            let mut second = McClient::connect(addr, None).await.expect("connect");
+            let mut o2 = LoginOutcome { packets: vec![], stage: Stage::Connected, error: None };
+            second.login(&params("Second"), Stage::Connected, Stage::InConfiguration, &mut o2).await;
+            tokio::time::sleep(Duration::from_millis(30)).await;
+            if fail {
+                gate.add_permits(1);
+                let from = o1.stage;
+                first.login(&params("First"), from, Stage::Transferred, &mut o1).await;
+                if went(&o1).is_some() {
+                    rep.violation(Violation { key: "connection:routed-without-a-discovery-result".into(), text: format!("{label}: the first player's discovery call failed, yet it was sent to {:?}", went(&o1)), replay: replay.clone(), weight: 4 });
+                }
+            } else {
+                drop(first);
+            }
+            tokio::time::sleep(Duration::from_millis(60)).await;
+            gate.add_permits(4);
+            let from = o2.stage;
+            second.login(&params("Second"), from, Stage::Transferred, &mut o2).await;
+            if went(&o2).as_deref() != Some("10.0.0.2") {
+                rep.violation(Violation {
+                    key: if went(&o2).is_some() { "connection:disqualified-target-chosen".into() } else { "connection:qualified-player-refused".into() },
+                    text: format!("{label}: the second player, whose own discovery finds `a` offline and `b` online, was sent to {:?} (stage {:?}, error {:?}); only `b` (10.0.0.2) qualifies", went(&o2), o2.stage, o2.error),
+                    replay,
+                    weight: 4,
+                });
+            }
+            stop.cancel();
+            let _ = tokio::time::timeout(Duration::from_secs(2), done).await;
+        });
+    }
+    n
+}
+
 pub fn run(cli: Cli) -> ! {
     let rep = Report::new("C18", cli.tier, "exploration");
     if cli.replay.is_some() {
         println!("C18 cases are printed in full in the replay file; the sweep is re-run, which re-evaluates that case.");
     }
     enumk::c18::core(&rep, cli.tier.thorough());
-    let n = whole_connections(&rep);
+    let n = whole_connections(&rep) + renamed_connections(&rep) + overlapping_connections(&rep);
     rep.require("whole connections through the built-in filters", n, 10);
     rep.set("whole_connections_over_tcp", json!(n));
     rep.assume("whole connections: two host-scoped metadata filters and a host-scoped block list built with DynFilterAdapters::from_config, the default strategy, two discovered targets; 'the host name the player connected with' is the handshake's");
